@@ -1,5 +1,5 @@
 """C10 -- overlap removal leaves a separated subset and distance queries agree."""
-from contracts import emulsions as em
+from contracts import emulsions as em, neighbors as nb
 from pyvc.bounded import Bounded, ContractSampling
 
 LEVEL = "proof"
@@ -9,13 +9,17 @@ LEVEL_TEXT = ("remove_overlapping is verified for emulsions of ANY length: the w
               "witness at least as large, droplet data untouched, termination (variant), and - by a second contract - nothing is removed from an "
               "already separated emulsion (idempotence); the strictly-largest clause is a lemma over the witness clause. "
               "get_pairwise_distances (two nested cut loops, quantified matrix invariant) and overlaps are verified against the same metric "
-              "(Euclidean, or an uninterpreted symmetric grid metric, so a dropped grid= argument is noticed). Nearest-neighbour distances "
-              "and random generation are bounded stand-ins.")
+              "(Euclidean, or an uninterpreted symmetric grid metric, so a dropped grid= argument is noticed). get_neighbor_distances is verified "
+              "against an ASSUMED contract of the k-d tree query (two different nearest points per row, ascending distances, no other point closer "
+              "than the second - the droplet itself need not be among them when centres coincide): entry i is the centre distance to a nearest "
+              "OTHER droplet w, minus the radii of droplet i and of w if requested (quantifier-free: assumed contract and metric axioms instantiated at a "
+              "Skolem row and a Skolem other droplet, explicit witness). Random generation is a bounded stand-in; the neighbour query itself is "
+              "validated by the exhaustive lattice enumeration incl. coincident centres.")
 LEVEL_NOTE = ("A-FP; A-PDE: grid.distance is symmetric and non-negative; numpy: zeros, fill_diagonal, argmin+unravel_index (position of a "
               "minimal entry), delete (row/column shift), norm; list.pop; finite positions/radii/min_distance (np.inf modelled as a constant "
               "above every finite quantity); the quantified obligations are discharged by z3's quantifier instantiation (no fallback back end "
               "accepts the multi-index array terms)")
-CONTRACTS = [c.ident for c in (em.PairwiseDistances(), em.Overlaps(), em.RemoveOverlapping(), em.RemoveOverlappingIdempotent())]
+CONTRACTS = [c.ident for c in (em.PairwiseDistances(), em.Overlaps(), em.RemoveOverlapping(), em.RemoveOverlappingIdempotent(), nb.NeighborDistances())]
 LEMMAS = ["strictly-largest-droplet-survives", "euclidean-distance-symmetric-nonnegative", "surface-distance-symmetric"]
 BOUNDED = [ContractSampling("distance-contracts-on-real-emulsions", CONTRACTS[:3],
                             "emulsions of 0-6 droplets on a half-integer lattice with tied radii, dims 1-3, Euclidean and periodic "
